@@ -2,4 +2,4 @@ import os, sys
 sys.path.insert(0, os.path.dirname(os.path.dirname(os.path.abspath(__file__))))
 from loopfam import drv, RULE, TRUSTED, ASSUME, GENS
 
-PROP = dict(gens=GENS, drivers=[drv("udp"), drv("udp", n=40, tags="verif poll_opt")], sites=['^udp-', '^engine-start$', '^fd-leak$'], rule=RULE, trusted=TRUSTED, assumptions=ASSUME)
+PROP = dict(gens=GENS, drivers=[drv("udp"), drv("udp", n=40, tags="verif poll_opt"), drv("client", n=60)], sites=['^udp-', '^engine-start$', '^fd-leak$'], rule=RULE, trusted=TRUSTED, assumptions=ASSUME)
